@@ -627,11 +627,17 @@ func runAggCheck(t *testing.T, prop string, oracle aggOracle, rule string, nontr
 						}
 					}
 					if failed {
-						// slow path: re-execute from scratch, 5x, per level
+						// slow path: re-execute from scratch, 5x, per level - with the calls that
+						// preceded it on the same snapshot in the fast path (the four levels in
+						// ascending order), so that a result that depends on earlier calls is
+						// reproduced as it was seen
 						for level := ExactFlags; level <= AnyValue; level++ {
 							lv := level
 							r.Check(func() *h.Viol {
 								s := c.snapshot()
+								for l := ExactFlags; l < lv; l++ {
+									_, _ = safeAggregate(s, l)
+								}
 								a, p := safeAggregate(s, lv)
 								if p != "" {
 									return &h.Viol{Fingerprint: prop + "/panic-in-Aggregate", Summary: "Aggregate panicked: " + firstLine(p), Key: c.key() + " " + levelNames[lv], Observed: p, Expected: "no panic", Extra: map[string]any{"case": c.describe()}}
